@@ -4,6 +4,7 @@ import (
 	"fmt"
 	"go/ast"
 	"go/constant"
+	"go/types"
 
 	"osmcheck/core"
 )
@@ -29,8 +30,31 @@ func c14W3(r *core.R) {
 
 	// parameters are never reassigned (the scan and the append see the caller's path, the tests see the caller's id)
 	c := "params-stable@dfs"
-	if w := append(c14Writes(info, m.walk.Decl.Body, m.idParam), c14Writes(info, m.walk.Decl.Body, m.pathParam)...); len(w) > 0 {
+	w := c14Writes(info, m.walk.Decl.Body, m.idParam)
+	regrown := 0
+	for _, pw := range c14Writes(info, m.walk.Decl.Body, m.pathParam) {
+		// `path = <same length, same elements>` (capacity grown once, re-sliced) leaves the ancestors as they are
+		same := false
+		if as, ok := pw.(*ast.AssignStmt); ok && len(as.Lhs) == 1 && len(as.Rhs) == 1 && objOf(info, as.Lhs[0]) == types.Object(m.pathParam) {
+			for _, n := range g.byAst[as] {
+				if len(g.byNode[n]) > 0 {
+					same = m.pathLike(g, g.canon(n.ctx, as.Rhs[0], n), 0)
+					if !same {
+						break
+					}
+				}
+			}
+		}
+		if same {
+			regrown++
+		} else {
+			w = append(w, pw)
+		}
+	}
+	if len(w) > 0 {
 		r.Bad(c, w[0].Pos(), "`%s` overwrites a parameter of %s: the cycle scan / path extension no longer work on the ancestors handed in by the caller", src(fs, w[0]), fn)
+	} else if regrown > 0 {
+		r.OK(c, m.walk.Decl.Pos(), "parameter %s is never assigned; %s is only ever replaced by a slice with the same length and the same elements (%d assignment(s): re-slice / copy into a larger backing array)", m.idParam.Name(), m.pathParam.Name(), regrown)
 	} else {
 		r.OK(c, m.walk.Decl.Pos(), "parameters %s and %s are never assigned, incremented or address-taken in %s", m.idParam.Name(), m.pathParam.Name(), fn)
 	}
@@ -54,7 +78,7 @@ func c14W3(r *core.R) {
 		c = "path-arg@dfs"
 		pv := g.canon(rec.n.ctx, rec.path, rec.n)
 		switch {
-		case pv.k != 'C' || pv.name != "append" || len(pv.args) != 2 || !m.isPathParam(pv.args[0]) || func() bool {
+		case pv.k != 'C' || pv.name != "append" || len(pv.args) != 2 || !m.pathLike(g, pv.args[0], 0) || func() bool {
 			ce, _ := pv.node.(*ast.CallExpr)
 			return ce == nil || ce.Ellipsis.IsValid()
 		}():
